@@ -14,6 +14,15 @@ let () = iter_lines (fun line ->
     let a = GenPrelude.upd (GenPrelude.upd (fun _ -> z_of_int 0) v1 (z_of_string a1)) v2 (z_of_string a2) in
     (match Gen_List.pvGetOffset (Gen_Vertices.coq_GetVertices lz) cpz a (z_of_int 0) (z_of_int 0) cz with
      | GenPrelude.Ok o -> print_endline (zs o) | _ -> print_endline "ASSERT")
+  | ["b"; v; i] ->
+    (* the generated SetBit / GetBit on an 8-byte array *)
+    let vz = Z.of_string v in
+    let d0 = (fun k -> let ki = int_of_z k in if ki >= 0 && ki < 8 then z_of_zarith (Z.logand (Z.shift_right vz (8 * ki)) (Z.of_int 255)) else z_of_int 0) in
+    let d1 = Gen_Bits.coq_SetBit d0 (z_of_string i) in
+    let buf = Buffer.create 128 in
+    for k = 0 to 7 do Buffer.add_string buf (zs (d1 (z_of_int k)) ^ " ") done;
+    for j = 0 to 63 do Buffer.add_char buf (if Gen_Bits.coq_GetBit d1 (z_of_int j) then '1' else '0') done;
+    print_endline (Buffer.contents buf)
   | ["c"; v; m] -> print_endline (zs (Gen_Ceil.coq_Ceil (z_of_string v) (z_of_string m)))
   | "S" :: _sid :: keep :: rest ->
     (* DataColumnListStatic: members "M size:align ..." then ops "m idx.." / "r" *)
@@ -50,7 +59,7 @@ let () = iter_lines (fun line ->
     Buffer.add_string buf " ; raw ok ; visit";
     Stdlib.List.iter (fun o -> Buffer.add_string buf (" " ^ zs o)) offs;
     print_endline (Buffer.contents buf)
-  | first :: rest0 when first = "F" || first = "D" || (first <> "v" && first <> "c" && first <> "p") ->
+  | first :: rest0 when first = "F" || first = "D" || (first <> "v" && first <> "c" && first <> "p" && first <> "b") ->
     let failing = (first = "F") in
     let (l, keep, rest) = (match (if failing || first = "D" then rest0 else first :: rest0) with l :: keep :: rest -> (l, keep, rest) | _ -> ("4", "0", ["?bad"])) in
     (* A / G / H as the first op = DataColumnList(column, columns...): in the model, an Add on the empty list *)
